@@ -10,9 +10,9 @@ RULES = {
     'C19.R1': 'write_lincomb prints each coefficient next to the index it was enumerated with before any reordering; the position counter is only used for the skip test',
     'C19.R2': 'omissions are marked: a row/coefficient is skipped only on the skip-range test, and the first skip writes the ellipsis',
     'C19.R3': 'one scale: write_inequality divides the row and the bias by the same max|coeff|, only when not all-zero; tautology symbols follow bias >= 0; write_float prints sign and magnitude of the same value',
-    'C19.R4': 'one statement per node and edge: Dot prints n{idx} with the node\'s own function/predicate by its leaf flag and every edge\'s own source, target and label; Display iterates the nodes once',
+    'C19.R4': 'each kind of DOT label is printed with the format options Dot::from set up for that kind; one statement per node and edge: Dot prints n{idx} with the node\'s own function/predicate by its leaf flag and every edge\'s own source, target and label; Display iterates the nodes once',
 }
-FLOORS = {'C19.R5': 5, 'C19.R1': 1, 'C19.R2': 3, 'C19.R3': 4, 'C19.R4': 7}
+FLOORS = {'C19.R5': 5, 'C19.R1': 1, 'C19.R2': 3, 'C19.R3': 4, 'C19.R4': 8}
 EXPLANATION = 'Provenance rules on what is handed to the formatting machinery.'
 DOES_NOT_DECIDE = 'that the digits equal the stored values at the printed precision (core::fmt), layout'
 
@@ -489,6 +489,27 @@ def dot(ctx, F):
                 and any(s(d[1]) == s(('field', item, '0')) for d in disp)
         (ctx.ok if ok else ctx.bad)('C19.R4', site, 'one loop over node_iter(): n{idx} with the node\'s own function (leaf) or predicate (decision)' if ok else
                                     'DOT node statements do not show each stored node once with its own function/predicate', b.span)
+        # the options each kind of label is printed with are the ones the constructor set up for that kind
+        site = '<Dot as Display>::fmt#options'
+        fb = F.q('Dot::from')
+        init = {}
+        if fb is not None:
+            for _, e in Resolver(fb).return_expr():
+                if e[0] == 'agg' and isinstance(e[1], tuple) and e[1][0] == 'adt' and len(e[1]) > 3:
+                    for name, v in zip(e[1][3], e[2]):
+                        if v[0] == 'call':
+                            init[name] = v[1]
+        if len(wfn) == 1 and len(wpl) == 1 and init:
+            def opt_field(a):
+                x = s(a[2]) if len(a) > 2 else None
+                return x[2] if x and x[0] == 'field' and x[1] == ('param', 'self') else None
+            of, op = opt_field(wfn[0][1]), opt_field(wpl[0][1])
+            if of is None or op is None or of not in init or op not in init:
+                ctx.undecided('C19.R4', site, 'the format options handed to write_func / write_poly are not fields of the Dot value set up by Dot::from', b.span)
+            elif init[of].endswith('default_func') and init[op].endswith('default_poly'):
+                ctx.ok('C19.R4', site, 'terminal labels use the options Dot::from initialises with default_func (%s), predicate labels those with default_poly (%s)' % (of, op), b.span)
+            else:
+                ctx.bad('C19.R4', site, 'a label is printed with the options of the other kind: write_func gets `%s` (= %s), write_poly gets `%s` (= %s)' % (of, init[of], op, init[op]), b.span)
         site = '<Dot as Display>::fmt#edges'
         ok = n_edge_loops == 1
         if ok:
